@@ -30,6 +30,8 @@ CLAIMS = {
          "Exec readiness probes run unmodified against the simulated kernel: every probe command launch, its time-out kill, the stop signal after the failure threshold and the relaunch are events of the simulated process table on the fake clock. Effective parameters are observed (first probe not before the initial delay, runs of one prober at least 1 s apart, hanging probe killed no earlier than the effective time-out), the stop comes exactly when failure_threshold consecutive runs of this launch's prober failed and never earlier, the relaunch follows iff the restart policy owes one, and the reported health at every stable point equals the outcome of the last finished probe run of the current launch (unknown when none finished). A daemon arm (launcher exits, liveness probe with scripted outcomes) checks 'treated as exited after failure_threshold consecutive failures, not before, then restart policy'; the effective parameters of every probe, including the port of a never-started http_get probe, are read back from the runner and must be legal. http probes are never run (real sockets): see DESIGN.md."),
  "C13": ("exploration", "3.C13", "seeded sequences of scale requests (and pairs of concurrent ones) against a replicated process on the simulated kernel; after each request an audit of names, states, configurations and logs is compared with the expected replica set, with a fresh load of the same project, and with the simulated process table (who was launched, signalled, left alone)",
          "A replicated process (1-11 replicas, 98-101 occasionally in the thorough tier; forever-running, finite or restarting commands) receives 1-5 successive scale requests - up, down, across the 9/10 and 99/100 width boundaries, to the current value, n<1, unknown and stale names - or two requests at the same instant. After each, exactly the expected names must be listed (and equal a fresh load's), every replica must report its own number, rendered command, PC_REPLICA_NUM, state (pid of its own command) and log lines; survivors must not have been signalled or relaunched, removed ones must be dead and gone, added ones launched once, other processes untouched, invalid requests must fail without side effects; concurrent requests must leave the outcome of one of the two orders."),
+ "C14": ("exploration", "3.C14", "seeded pairs and chains of configurations applied with UpdateProject to a running project on the simulated kernel; returned status map, listed processes, reported configuration and the simulated process table (kept / signalled / relaunched commands and the arguments, environment and directory they were launched with) compared with the new configuration",
+         "Projects of 1-5 processes receive 1-3 successive updates that remove, add, change (command, environment, working directory, restart policy, back-off, readiness probe, disabled flag) or keep each process, or are identical to the current configuration. The status map must name exactly the added, removed and updated processes; afterwards exactly the new set is listed, unchanged processes kept their command (not signalled, not relaunched), changed ones had the old command terminated and run one launched with the new configuration, removed ones are dead and gone, new ones launched. Replica-count changes through an update and description-only changes are not generated: see DESIGN.md."),
  "C11": ("exploration", "3.C11", "seeded simulated runs with scripted output on both streams (chunk splitting, partial last lines, bursts, read errors, restarts); every byte written to the simulated pipes is compared with the log buffer and the log file at the end",
          "What a process wrote to the simulated pipes is ground truth: every complete line must reach the in-memory log and the log file once, in per-stream order, whole (never split or merged across chunk boundaries) and attributed to the right process, across restarts and read errors."),
  "C18": ("exploration", "3.C18", "seeded concurrent writers/readers/subscribers of the log buffer under the cooperative scheduler; porcupine linearizability against a sequential ring model; follower oracle (no loss, duplication or reordering after subscription)",
